@@ -16,7 +16,7 @@ AUDIT = "Audit/C16.lean"
 MODULE = "Xandikos.Theorems.C16"
 DAV = "{DAV:}"
 
-STEMS = ["plain", "a b", "50%", "a#b", "q?x", "s;t", "p+q", "a&b", "a:b", "x=y", "'q'", "a,b", "(p)", "~t", "a@b",
+STEMS = ["plain", "a b", "50%", "a%20b", "a#b", "q?x", "s;t", "p+q", "a&b", "a:b", "x=y", "'q'", "a,b", "(p)", "~t", "a@b",
          "%41", "a%2Fb", "%", "a%zz", "zoë", unicodedata.normalize("NFD", "zoë"), "日本語", "emoji😀", "dot.dot",
          ".hidden", "trailing.", "q?x#y", "a:b:c", "http:x", "mailto:me", " lead", "CAPS", "tab\tin", "back\\slash",
          "quo\"te", "less<more>", "pipe|x", "{curly}", "^caret`"]
@@ -292,7 +292,9 @@ def run_layout(chk, fe, prefix, names):
     try:
         # extra collections, nested, with awkward names
         for path, method in (("/user/calendars/c é", "MKCALENDAR"), ("/user/extra 1", "MKCOL"),
-                             ("/user/extra 1/in#ner", "MKCOL")):
+                             ("/user/extra 1/in#ner", "MKCOL"),
+                             # collections that are direct members of a calendar
+                             ("/user/calendars/c é/archive 2023", "MKCOL"), ("/user/calendars/calendar/sub%41", "MKCALENDAR")):
             r = p.srv.request(method, p.target(path), {})
             p.hist.append([method, path, r.status])
             if r.status == 201:
@@ -305,6 +307,9 @@ def run_layout(chk, fe, prefix, names):
                     p.put(cpath, stem + ".ics", vevent("uid-%d-%s" % (i, abs(hash(cpath)) % 997), summary="s%d" % i), "text/calendar")
                 elif kind == "addressbook":
                     p.put(cpath, stem + ".vcf", vcard("N%d" % i, uid="c%d" % i), "text/vcard")
+                elif kind == "plain" and i <= 3 and "in#ner" not in cpath:
+                    # a plain collection holds calendar objects too (its type is then guessed)
+                    p.put(cpath, stem + ".ics", vevent("uid-p%d-%s" % (i, abs(hash(cpath)) % 997), summary="p%d" % i), "text/calendar")
         for cpath, kind in p.colls.items():
             if kind in ("calendar", "addressbook"):
                 p.check_post(cpath, vevent("posted-%s" % abs(hash(cpath))) if kind == "calendar" else vcard("Posted", uid="pp"),
@@ -365,12 +370,13 @@ def run(chk):
     chk.rng.shuffle(names)
     layouts = [("wsgi", "/"), ("aiohttp", "/"), ("wsgi", "/dav/"), ("aiohttp", "/a/b/")] if quick else \
         [(fe, pf) for fe in ("wsgi", "aiohttp") for pf in ("/", "/dav/", "/a/b/")]
-    per = 10 if quick else len(names)
+    core = ["%41", "a%2Fb", "50%", "a%20b", "a#b", "q?x", "zoë", "a:b", "a b", "s;t"]   # in every layout
+    per = 8 if quick else len(names)
     for k, (fe, pf) in enumerate(layouts):
         sub = names[(k * per) % len(names):][:per] or names[:per]
         if len(sub) < per:
             sub = sub + names[:per - len(sub)]
-        run_layout(chk, fe, pf, sub)
+        run_layout(chk, fe, pf, core + [n for n in sub if n not in core])
 
 
 def replay(chk, path):
